@@ -1,4 +1,5 @@
 import PsModel.Model.C13
+import PsModel.Gen.RunCoroTbl
 /-!
 # C14 model – `Function.run_coro` with its `finally`, `create_task`, done-callbacks, `task.cancel`
 
@@ -121,10 +122,26 @@ structure Cfg where
   reaperDetached : Bool
   reaperWaitsForStart : Bool
 
-/-- the code as it is now -/
+/-- the code as it is now: every flag is READ OFF THE SOURCE on every run (`tools/extractors/C14.py` →
+`Gen/RunCoroTbl.lean`, reaper flags from `tools/extractors/C13.py` → `Gen/TaskTbl.lean`); the theorems about `current`
+only build while the extracted values are the repaired shapes -/
 def current : Cfg :=
-  { cbContinues := true, snapshotIter := true, cleanupAlways := true, svcCtx := true, oursAtCreate := true,
-    reaperDetached := true, reaperWaitsForStart := true }
+  { cbContinues := PsModel.Gen.CB_RAISE_CONTINUES, snapshotIter := PsModel.Gen.CB_LOOP_SNAPSHOT,
+    cleanupAlways := PsModel.Gen.CLEANUP_IN_INNER_FINALLY, svcCtx := PsModel.Gen.SERVICE_TASKS_HAVE_CTX,
+    oursAtCreate := PsModel.Gen.OURS_AT_CREATE, reaperDetached := PsModel.Gen.REAPER_DETACHED,
+    reaperWaitsForStart := PsModel.Gen.REAPER_WAITS_FOR_START }
+theorem current_eq : current = ⟨true, true, true, true, true, true, true⟩ := rfl
+
+/-- shape facts of `run_coro` / `create_task` / the callback table / `task.cancel` that are not configuration flags:
+the steps of this model are written for exactly these shapes (`C14_shape_tie`) -/
+def shapeFacts : List Bool :=
+  [PsModel.Gen.CB_LOOP_GUARDED_BY_ENTRY, PsModel.Gen.CB_CALLED_WITH_OWN_ARGS, PsModel.Gen.START_ADDS_OURS,
+   PsModel.Gen.START_ENSURES_ENTRY, PsModel.Gen.RESULT_IS_BODY_VALUE, PsModel.Gen.CANCEL_RERAISED,
+   PsModel.Gen.EXC_LOGGED_RETURNS_NONE, PsModel.Gen.UNSTARTED_TRACKED == PsModel.Gen.REAPER_WAITS_FOR_START,
+   PsModel.Gen.ENSURE_ENTRY_KEEPS_EXISTING, PsModel.Gen.CB_ADD_IS_DICT_STORE, PsModel.Gen.CB_REMOVE_IS_POP,
+   PsModel.Gen.CANCEL_DEFAULTS_TO_SELF, PsModel.Gen.CANCEL_CHECKS_OURS, PsModel.Gen.CANCEL_VIA_REAPER,
+   PsModel.Gen.CANCEL_SELF_PARKS, PsModel.Gen.RELEASE_IN_FINALLY, PsModel.Gen.RELEASE_ATOMIC,
+   PsModel.Gen.REAPER_ONE_FIFO_QUEUE]
 
 /-- the code before the `fix:` commits (kept for the regression theorems) -/
 def preFix : Cfg :=
@@ -330,6 +347,60 @@ def step (cfg : Cfg) (s : St κ) : Op κ → St κ
   | .cleanup t => cleanupStep cfg s t
 
 def run (cfg : Cfg) (ops : List (Op κ)) : St κ := ops.foldl (step cfg) init
+
+/-! ### the same machine with `task_unique` and the release block ASSEMBLED FROM THE EXTRACTED SHAPE TABLES
+
+`finishSh` is `finish` with the registries cleared as listed – in that order – by `Shape.releaseOrder` (read off the
+inner `finally` of `run_coro`), `uniqueSh` is `task_unique` put together from the guard / order flags.  `stepSh` is
+`step` with these two plugged in (all other steps shared); the driver replays observed runs with
+`stepSh Shape.extracted current`, and `C14_shape_step` shows that this is `step current`. -/
+
+def finishSh (sh : C13.Shape) (s : St κ) (t : Task) (r : Res) : St κ :=
+  { s with u := C13.exitStepSh sh s.u t,
+           hctx := if PsModel.Gen.Reg.task2context ∈ sh.releaseOrder then upd s.hctx t false else s.hctx,
+           cb := if PsModel.Gen.Reg.task2cb ∈ sh.releaseOrder then upd s.cb t none else s.cb,
+           phase := upd s.phase t .done, result := upd s.result t (some r) }
+
+def bailSh (sh : C13.Shape) (cfg : Cfg) (s : St κ) (t : Task) (r : Res) : St κ :=
+  if cfg.cleanupAlways then finishSh sh { s with bailed := upd s.bailed t (some r) } t r
+  else abort { s with bailed := upd s.bailed t (some r) } t r
+
+def cbBeginStepSh (sh : C13.Shape) (cfg : Cfg) (s : St κ) (t : Task) : St κ :=
+  if s.phase t ≠ .finalizing then s else
+  if s.inCb t then s else
+  if s.loopDone t then s else
+  if resized cfg s t then bailSh sh cfg s t .error else
+  match (iterList cfg s t)[s.idx t]? with
+  | none => s
+  | some (c, a) =>
+    { s with ran := s.ran ++ [(t, c, a)], idx := upd s.idx t (s.idx t + 1), inCb := upd s.inCb t true }
+
+def cbEndStepSh (sh : C13.Shape) (cfg : Cfg) (s : St κ) (t : Task) (r : CbRes) : St κ :=
+  if s.phase t ≠ .finalizing then s else
+  if !s.inCb t then s else
+  match r with
+  | .ok => { s with inCb := upd s.inCb t false }
+  | .raises =>
+    if cfg.cbContinues then { s with inCb := upd s.inCb t false, cbRaised := upd s.cbRaised t true }
+    else { s with inCb := upd s.inCb t false, loopDone := upd s.loopDone t true, cbRaised := upd s.cbRaised t true }
+  | .cancelled => bailSh sh cfg { s with inCb := upd s.inCb t false } t .cancelled
+
+def cleanupStepSh (sh : C13.Shape) (cfg : Cfg) (s : St κ) (t : Task) : St κ :=
+  if s.phase t ≠ .finalizing then s else
+  if s.inCb t then s else
+  if loopPending cfg s t then s else
+  if sizeChanged cfg s t then bailSh sh cfg s t .error else
+  finishSh sh s t (resultOf (s.outcome t))
+
+def uniqueStepSh (sh : C13.Shape) (s : St κ) (t : Task) (k : κ) (km : Bool) : St κ :=
+  if active s t then { s with u := C13.uniqueStepSh sh s.u t k km } else s
+
+def stepSh (sh : C13.Shape) (cfg : Cfg) (s : St κ) : Op κ → St κ
+  | .unique t k km => uniqueStepSh sh s t k km
+  | .cbBegin t => cbBeginStepSh sh cfg s t
+  | .cbEnd t r => cbEndStepSh sh cfg s t r
+  | .cleanup t => cleanupStepSh sh cfg s t
+  | op => step cfg s op
 
 /-- the callbacks that ran for `t`, in order -/
 def ranOf (s : St κ) (t : Task) : List (Cb × Args) := (s.ran.filter (fun e => e.1 = t)).map (fun e => e.2)
